@@ -229,7 +229,7 @@ def run_pureb(ctx, case):
 
 
 SUBCHECKS = [
-    SubCheck('partial_trace', run_pt, strategy=_strat_pt, examples=(150, 600), shards=(3, 16), floors={'non-contiguous keep': 0.2}),
+    SubCheck('partial_trace', run_pt, strategy=_strat_pt, examples=(150, 600), shards=(3, 16), floors={'n=3': 0.1}),
     SubCheck('dicke_basis', run_dicke_basis, cases=cases_dicke_basis, shards=(4, 8)),
     SubCheck('abk_reduce', run_abk, strategy=_strat_abk, examples=(150, 600), shards=(3, 16), floors={'torch': 0.3}),
     SubCheck('pureb_dm', run_pureb, strategy=_strat_pureb, examples=(80, 400), shards=(1, 8)),
